@@ -86,6 +86,16 @@ J gen_tunnel(uint64_t seed, const J &ov)
 	if (ov.has("nclients")) ncli = (int)ov.geti("nclients");
 	bool wildcard = r.chance(0.2);
 	std::string dom = gen_domain(r);
+	int names_L = 0;
+	if (mode == "names") {
+		// L over 100..255 (boundaries favoured), domain length 3..min(128, L-24)
+		names_L = (int)(r.chance(0.3) ? (r.chance(0.5) ? 255 : r.range(100, 104)) : r.range(100, 255));
+		int maxdom = std::min(128, names_L - 24);
+		// most runs leave room for the 32-character login message (so the session gets going); the rest sit at the documented minimum of 24
+		int roomy = std::max(3, std::min(128, names_L - 46));
+		int dl = (int)(r.chance(0.15) ? r.range(std::max(3, maxdom - 2), maxdom) : r.chance(0.3) ? r.range(std::max(3, roomy - 3), roomy) : r.range(3, roomy));
+		dom = gen_domain(r, dl);
+	}
 	cfg.set("domain", dom);
 	if (wildcard) { size_t dot = dom.find('.'); cfg.set("srv_domain", "*" + dom.substr(dot)); }
 	cfg.set("password", gen_password(r));
@@ -102,6 +112,18 @@ J gen_tunnel(uint64_t seed, const J &ov)
 	if (ov.has("raw")) for (auto &c : cl.a) c.set("raw", ov.getb("raw"));
 	if (ov.has("fragsize")) for (auto &c : cl.a) c.set("fragsize", (int)ov.geti("fragsize"));
 	if (mode == "redeliver") for (auto &c : cl.a) c.set("raw", false);
+	if (mode == "names") for (auto &c : cl.a) {
+		c.set("raw", false); c.set("maxlen", names_L);
+		if (r.chance(0.7)) c.set("qtype", "NULL");
+		if (r.chance(0.5)) c.set("fragsize", 0);       // autoprobe: fragsize probe names are then emitted too
+	}
+	if (mode == "relayfam") for (auto &c : cl.a) {
+		// everything the property calls "automatic": codecs and fragment size always autodetected, the type in ~60% of runs
+		c.set("raw", false); c.set("downenc", ""); c.set("fragsize", 0);
+		if (r.chance(0.6)) c.set("qtype", "");
+		else if (c.gets("qtype").empty()) c.set("qtype", TYPES[r.range(0, 6)]);
+		c.set("lat_up_us", (long long)r.range(100, 5000)); c.set("lat_dn_us", (long long)r.range(100, 5000));
+	}
 	cfg.set("clients", cl);
 
 	uint64_t ser = seed % 1000 * 100000;
@@ -137,6 +159,37 @@ J gen_tunnel(uint64_t seed, const J &ov)
 		cfg.set("faults", f);
 		cfg.set("dur_s", (int)(W + 40));
 		cfg.set("tmax_s", 700);
+	} else if (mode == "names") {
+		// C08: short sessions over (L, domain length, upstream codec); upstream packets of all sizes and tail residues
+		double W = 4 + r.uniform() * 6;
+		static const char *force[] = {"base32", "base64", "base64u", "base128"};
+		std::string fu = force[r.range(0, 3)];
+		if (ov.has("up")) fu = ov.gets("up");
+		if (fu != "base128") cfg.set("relay", gen_relay(r, fu));
+		cfg.set("force_up", fu);
+		int n = (int)r.range(8, 30);
+		double t = 0.1;
+		for (int i = 0; i < n; i++) {
+			t += r.chance(0.5) ? r.uniform() * 0.02 : r.uniform() * 2 * W / n;
+			J op = J::obj(); op.set("t", (long long)(t * 1e6)); op.set("op", "tun"); op.set("at", "c0"); op.set("ser", (long long)++ser);
+			int len = (int)(r.chance(0.3) ? r.range(40, 120) : r.chance(0.5) ? r.range(120, 600) : r.range(600, 1400));
+			op.set("len", len); op.set("body", r.chance(0.8) ? "rnd" : "text"); op.set("dst", "srv"); op.set("src", "c0");
+			ops.push(op);
+		}
+		gen_traffic(r, ops, "srv", "c0", (int)r.range(0, 6), 0.1, W, ser, 600, true);
+		cfg.set("dur_s", (int)(W + 20));
+		cfg.set("tmax_s", 600);
+	} else if (mode == "relayfam") {
+		// C11: full autodetection (type forced in some runs) through a relay with a fixed transformation; otherwise lossless
+		double W = 8 + r.uniform() * 15;
+		J rl = gen_relay(r);
+		if (ov.has("relay_case_q")) rl.set("case_q", ov.gets("relay_case_q"));
+		cfg.set("relay", rl);
+		gen_traffic(r, ops, "c0", r.chance(0.5) ? "srv" : "ext", (int)r.range(8, 25), 0.1, W, ser, 1200, true);
+		gen_traffic(r, ops, "srv", "c0", (int)r.range(8, 25), 0.1, W, ser, 1200, true);
+		cfg.set("dur_s", (int)(W + 45));
+		cfg.set("tmax_s", 1200);
+		cfg.set("max_events", 1500000);
 	} else if (mode == "redeliver") {
 		// C16: otherwise clean path; the only fault kind is re-delivery of queries (verbatim, new id, re-cased, other source)
 		double W = 10 + r.uniform() * 30;
@@ -213,6 +266,8 @@ World *build_tunnel(const J &plan)
 	if (w->cfg.has("relay")) relay = install_relay(w, w->cfg["relay"]);
 	w->add(mk_c01_integrity(w));
 	if (mode == "redeliver") { w->add(mk_c02_delivery(w, true, false, "C16")); w->add(mk_c16_redeliver(w)); }
+	else if (mode == "relayfam") w->add(mk_c02_delivery(w, true, false, "C11"));
+	else if (mode == "names") { w->add(mk_c02_delivery(w, true, false, "C02")); w->add(mk_c08_names(w)); }
 	else w->add(mk_c02_delivery(w, mode == "clean", mode == "recover"));
 	w->add(mk_c15_fragsize(w));
 	bool dupish = w->cfg["faults"].getd("p_dup") > 0 || w->cfg["faults"].getd("p_redeliv") > 0;
@@ -225,6 +280,29 @@ World *build_tunnel(const J &plan)
 	if (relay) s += "|relay:" + relay->sig();
 	w->sig = s;
 	World *ww = w;
+	if (mode == "relayfam" && relay) {
+		Relay *rl = relay;
+		w->result_hooks.push_back([ww, rl](J &r) {
+			(void)r;
+			if (ww->S.capped || ww->clients.empty()) return;
+			const J &c0 = ww->cfg["clients"].a[0];
+			std::string ft = c0.gets("qtype");
+			static const int qts[7] = {QT_NULL, QT_PRIVATE, QT_TXT, QT_SRV, QT_MX, QT_CNAME, QT_A};
+			bool some_type = false;
+			for (int i = 0; i < 7; i++) { if (!ft.empty() && ft != TYPES[i]) continue; if (rl->passes_type(qts[i])) some_type = true; }
+			bool size_ok = rl->maxans == 0 || rl->maxans >= 512;
+			bool must = some_type && size_ok;
+			ww->probes[must ? "c11.must_succeed" : "c11.may_fail"]++;
+			if (ww->all_in_tunnel) {
+				ww->probes["c11.handshake_ok"]++;
+				// which settings were selected (reach): read from the session table
+				UserView v;
+				if (peek_user(0, v)) { ww->probes["c11.up." + v.encoder]++; ww->probes[std::string("c11.down.") + (v.downenc ? std::string(1, v.downenc) : "?")]++; ww->probes["c11.frag." + std::string(v.fragsize < 200 ? "lt200" : v.fragsize < 600 ? "lt600" : v.fragsize < 1200 ? "lt1200" : "ge1200")]++; }
+			} else if (must) {
+				ww->S.violations.push_back({"C11", "negotiation.failed", "the path passes Base32 names, answers up to 512 bytes and at least one usable record type (" + rl->sig() + "), but the client's handshake did not complete (client " + (ww->clients[0].task->state == T_EXITED ? "exited" : "still negotiating") + ")"});
+			}
+		});
+	}
 	w->result_hooks.push_back([ww](J &r) {
 		int64_t wr = ww->probes["c01.written"];
 		bool fault = false;
@@ -235,6 +313,8 @@ World *build_tunnel(const J &plan)
 		if (mode == "clean") nt = nt && ww->probes["c02.acc_c"] >= 5 && ww->probes["c02.acc_s"] >= 5;
 		if (mode == "recover") nt = nt && fault;
 		if (mode == "redeliver") nt = nt && ww->probes["c16.redelivered"] >= 1;
+		if (mode == "names") nt = ww->all_in_tunnel && ww->probes["c08.full_chunks"] >= 1 && ww->probes["c08.tail_chunks"] >= 1;
+		if (mode == "relayfam") nt = ww->all_in_tunnel && ww->probes["c02.acc_c"] >= 3 && ww->probes["c02.acc_s"] >= 3;
 		r.set("nontriv", nt);
 	});
 	return w;
